@@ -21,31 +21,31 @@ const (
 
 // Obligation is one decided proof obligation / rule instance.
 type Obligation struct {
-	Rule       string `json:"rule"`              // rule id, e.g. "bounds.slice-hi"
-	Key        string `json:"key"`               // rule + construct; no line numbers
-	Pos        string `json:"pos"`               // file:line, diagnosis only
-	Verdict    string `json:"verdict"`           // discharged | violated | undecided
-	Detail     string `json:"detail,omitempty"`  // proof sketch or failed goal
-	NonTrivial bool   `json:"nontrivial"`        // discharge needed a fact, table row or path argument
-	Clause     string `json:"clause,omitempty"`  // which clause of the property this belongs to
+	Rule       string `json:"rule"`             // rule id, e.g. "bounds.slice-hi"
+	Key        string `json:"key"`              // rule + construct; no line numbers
+	Pos        string `json:"pos"`              // file:line, diagnosis only
+	Verdict    string `json:"verdict"`          // discharged | violated | undecided
+	Detail     string `json:"detail,omitempty"` // proof sketch or failed goal
+	NonTrivial bool   `json:"nontrivial"`       // discharge needed a fact, table row or path argument
+	Clause     string `json:"clause,omitempty"` // which clause of the property this belongs to
 	known      string // set when matched by a known finding
 }
 
 // Report collects the outcome of the rules of one property.
 type Report struct {
-	Property     string
-	Level        string
-	Obls         []Obligation
-	Funcs        map[string]bool
-	Assumptions  []string
-	TrustedBase  []string
-	Explanation  string
-	NotDecided   []string
-	RuleDoc      map[string]string // rule id -> one line statement
-	Floors       map[string]int    // rule id -> minimal number of instances
-	Extra        map[string]any
-	floorErrs    []string
-	keyCount     map[string]int
+	Property    string
+	Level       string
+	Obls        []Obligation
+	Funcs       map[string]bool
+	Assumptions []string
+	TrustedBase []string
+	Explanation string
+	NotDecided  []string
+	RuleDoc     map[string]string // rule id -> one line statement
+	Floors      map[string]int    // rule id -> minimal number of instances
+	Extra       map[string]any
+	floorErrs   []string
+	keyCount    map[string]int
 }
 
 func NewReport(prop, level string) *Report {
